@@ -15,7 +15,8 @@ RULE = ("(1) generated stylesheets in the construct subset of the statement (typ
         "raw text between quotes read as plain CSS, model of reader+Display == rsass. distinct = distinct source text; "
         "non-trivial = the first compile succeeded with non-empty output")
 EXHAUSTIVE = {"quick": False, "thorough": False}
-TRUSTED = ["Model/CssStr.v (Display of CssString; shared with C27) and Model/CssRead.v are tied to rsass by the string probes"]
+TRUSTED = ["Model/CssRead.v (quoted-string reader and Display of quoted strings incl. the hex-escape terminator of rsass 71d4ea9) "
+           "is tied to rsass by the string probes; Model/CssStr.v (shared with C27) supplies only the datatypes, is_private_use and pref_dquotes"]
 ASSUMPTIONS = ["the plain-CSS reader as a whole (about 900 lines of nom) is not modelled: the stylesheet-level round trip is "
                "decided on explored inputs only"]
 SHARD = 150
@@ -195,15 +196,14 @@ def coq_term(c, io):
     return f"(mkCase {cbytes(c['src'])} {out_coq(o1)} {out_coq(o2)} None)"
 
 
-K1 = "known_C09_private_use_before_hex_or_space"
 K2 = "known_C09_latin1_symbol_in_identifier"
 K3 = "known_C09_control_escape_respaced"
 
 
 def judge(c, io, r):
-    corr, p1, k1, k2, k3 = r
+    corr, p1, k2, k3 = r
     return {"corr": None if corr == 2 else corr == 1,
-            "clauses": [] if c["kind"] == "probe" else [("reads-back-the-same", p1 == 1, K1 if k1 else (K2 if k2 else (K3 if k3 else None)))],
+            "clauses": [] if c["kind"] == "probe" else [("reads-back-the-same", p1 == 1, K2 if k2 else (K3 if k3 else None))],
             "nontrivial": c["kind"] == "probe" or (io[0][0] == "ok" and bool(io[0][1][0])),
             "tags": [c["kind"], io[0][0]],
             "show": c["src"][:200], "detail": {"src": c["src"], "second": c.get("_o2")}, "key": c["src"]}
